@@ -7,6 +7,7 @@ import (
 	"math/rand"
 	"os"
 	"path/filepath"
+	"strings"
 
 	"github.com/rkosegi/yaml-toolkit/dom"
 	"github.com/rkosegi/yaml-toolkit/fluent"
@@ -44,7 +45,7 @@ type c04Config struct {
 
 func init() {
 	register(&Prop{ID: "C04", Run: c04Run,
-		Rule: "pairs of root containers A, B over a shared 6-key pool (B independent, or A after 1-4 local edits: key added/removed, leaf changed, kind swapped, list grown/shrunk/permuted), nulls with probability 0.2, lists of containers and lists of lists, both list strategies, B optionally sealed; overlay cases add 2-4 such documents as layers and read Merged(opts); heap-merge cases build A and B (or 1-3 overlay layers) in one of seven ways (FromMap, AddValue/ListNode with own or shared nil leaves, AddContainer/AddList/Set/Append, subtrees shared inside and between the documents, containers with an add-and-remove history), encode the real object graph as an explicit heap by pointer identity, Merge / Merged, and compare the result's sharing map (which result node is which input object / a new object) with the heap model, snapshot the inputs pointer for pointer, then write in place to the merged containers of the result; config cases send defaults plus 1-3 override sources (YAML file, JSON file, map, dom container) through fluent.ConfigHelper. A case is non-trivial when the two sides (some two layers / sources) share at least one key; distinct = distinct canonical case JSON (hash).",
+		Rule: "pairs of root containers A, B over a shared 6-key pool (B independent, or A after 1-4 local edits: key added/removed, leaf changed, kind swapped, list grown/shrunk/permuted), nulls with probability 0.2, lists of containers and lists of lists, both list strategies, B optionally sealed; overlay cases add 2-4 such documents as layers and read Merged(opts); heap-merge cases build A and B (or 1-3 overlay layers) in one of seven ways (FromMap, AddValue/ListNode with own or shared nil leaves, AddContainer/AddList/Set/Append, subtrees shared inside and between the documents, containers with an add-and-remove history), encode the real object graph as an explicit heap by pointer identity, Merge / Merged, and compare the result's sharing map (which result node is which input object / a new object) with the heap model, snapshot the inputs pointer for pointer, then write in place to the merged containers of the result; config cases send defaults plus 1-3 override sources (YAML file, JSON file, map, dom container) through fluent.ConfigHelper (six of them with an override file just over 512 B / 4 KiB / 64 KiB); seq cases merge the SAME A with 2-3 documents one after the other (half of them sparse documents that extend one of A's lists by 1-3 items; lists of up to 7 items, so that item slices have spare capacity), with itself under both strategies, and each B with A, re-observe every earlier result after all later merges, then edit A in place (domhist.go: AddValue / Remove / Set / MustSet / Append / Clear through nested builders, Lookup, the root's path API) and merge again; one in five builds all documents of the case so that structurally equal subtrees are one node object. A case is non-trivial when the two sides (some two layers / sources) share at least one key; distinct = distinct canonical case JSON (hash).",
 		Assumptions: []string{
 			"scalars are NaN-free and -0-free; a leaf is null iff its Go value is nil (wire scalar {nil,<nil>})",
 			"keys are arbitrary strings (a path-safe pool, and a second pool with dots, slashes, spaces, '~', brackets, non-ASCII text and the empty key); no key ends in an index group `[digits]`: the API invariant discussed under D26",
@@ -112,6 +113,29 @@ func c04Run(c *Ctx) {
 		}
 		c.Do("config", c04Config{Defaults: def, Sources: srcs})
 	}
+	// size thresholds of the file entry point: an override file just over 512 B / 4 KiB / 64 KiB (one long value, or
+	// many list items), a multi-byte character next to the threshold
+	if !c.searchMode || c.Thorough() {
+		for i, size := range []int{512, 4096, 65536, 512, 4096, 65536} {
+			c.Tick()
+			def := g.Doc(r)
+			src := second(def)
+			if m, ok := wireCont(src); ok {
+				if i < 3 {
+					m["pad"] = scalarWire(strings.Repeat("a", size-8) + "é€𝄞" + strings.Repeat("b", 40))
+				} else {
+					l := []any{}
+					for j := 0; j*80 < size; j++ {
+						l = append(l, scalarWire(fmt.Sprintf("%s%d", strings.Repeat("x", 60), j)), scalarWire(nil))
+					}
+					m["pad"] = l
+				}
+			}
+			c.Dist("config:big-override-file")
+			c.Do("config", c04Config{Defaults: def, Sources: []c04Source{{Via: pick(r, []string{"yaml", "json"}), Doc: src}, {Via: "map", Doc: second(def)}}})
+		}
+	}
+	c04RunSeq(c, opt) // c04_seq.go: the same receiver merged several times, read and edited in between, merged with itself
 	// pointer level: the real object graph against the heap model's sharing map (heap_share.go)
 	heapMergeGen(c, g, second, opt, c.N(900))
 	c04RunKeys(c, opt) // c04_keys.go: the same three routes over keys that are arbitrary strings
@@ -385,6 +409,8 @@ func c04Eval(c *Ctx, kind string, raw []byte) {
 		c.Direct("self-merge-meld-identity", canon(self) == canon(p.A) && eqSelf, self)
 		c.Corr("merge", rw, c.Model("merge", map[string]any{"a": p.A, "b": p.B, "opt": p.Opt}))
 		c.Corr("merge(AsMap)", rmap, c.Model("merge", map[string]any{"a": am0, "b": bm0, "opt": p.Opt}))
+	case "seq":
+		c04EvalSeq(c, raw) // c04_seq.go
 	case "pair-frommap":
 		c04EvalFromMap(c, raw) // c04_keys.go
 	case "overlay":
